@@ -9,7 +9,11 @@
    in call order -- exactly the numbering of harness/interpose.c's fault positions.  An exhausted stream answers
    every call normally, so the fault-free run is the run on the empty stream.
    Ghost state (no influence on the computation): the log of system calls (compared with the interposer's trace)
-   and [rderr], set when a read() got a hard error. *)
+   and [rderr], set when a read() got a hard error.
+   (The line numbers above are those of the round-1 transcription.  Re-read against /repo 19c9fb9: the only change in this
+   layer since then is 82c39a0 -- ADFI_read_file returns FREAD_ERROR when block_offset + data_length exceeds the number of
+   bytes the block read obtained (a short last block) -- transcribed in [read_file]; ADFI_write_file, incl. its block load
+   `iret = ADFI_read(..); if (iret < DISK_BLOCK_SIZE) { if (iret < 0) iret = 0; blank fill }`, is unchanged.) *)
 From Coq Require Import ZArith List Bool Arith Lia.
 Import ListNotations.
 Local Open Scope Z_scope.
